@@ -106,6 +106,13 @@ def _shard(name, shard, nshards, tier, seed):
                     push(op, f, ('as_vector', m.nsites, len(m.qd), tuple(m.bond_dims), m.A[0].dtype.kind))
                 elif k == 1:
                     o = mpsgen.rand_mpo(rng, L=int(rng.integers(1, 4)), maxD=int(rng.integers(1, 4)))
+                    if o.A[0].dtype.kind != 'i' and rng.random() < 0.15:
+                        # badly balanced / tiny operators (exact power-of-two scalings): dense and sparse forms must still agree
+                        k0 = int(rng.integers(0, o.nsites)); e = int(rng.choice([-60, -70, 60]))
+                        o.A[k0] = o.A[k0] * 2.0 ** e
+                        if rng.random() < 0.5 and o.nsites > 1:
+                            k1 = (k0 + 1) % o.nsites
+                            o.A[k1] = o.A[k1] * 2.0 ** (-e)
                     d = len(o.qd)
                     dg = [[a, b] for a, b in zip(digits_for(rng, d, o.nsites), digits_for(rng, d, o.nsites))]
                     sparse = bool(rng.random() < 0.5)
@@ -226,10 +233,17 @@ def oracle_case(rng):
                 return {'what': 'apply_operator: dense mismatch', 'case': ('apply', o, m)}
         elif k == 3:
             o = rnd_like(rng, mpsgen.rand_mpo(rng, L=int(rng.integers(1, 4))), cplx)
+            if rng.random() < 0.3:
+                # badly balanced or uniformly tiny operators: the two matrix forms must agree relative to the operator's size
+                k0 = int(rng.integers(0, o.nsites)); e = float(rng.choice([1e-16, 1e-17, 1e16]))
+                o.A[k0] = o.A[k0] * e
+                if rng.random() < 0.5 and o.nsites > 1:
+                    o.A[(k0 + 1) % o.nsites] = o.A[(k0 + 1) % o.nsites] / e
             ref = dense_mpo(o)
-            if np.abs(o.as_matrix() - ref).max() > tol * max(1, np.abs(ref).max()):
+            sc = np.abs(ref).max()
+            if np.abs(o.as_matrix() - ref).max() > tol * (sc if sc > 0 else 1):
                 return {'what': 'as_matrix (dense form) mismatch', 'case': ('as_matrix', o, None)}
-            if np.abs(o.as_matrix(sparse_format=True).toarray() - ref).max() > tol * max(1, np.abs(ref).max()):
+            if np.abs(o.as_matrix(sparse_format=True).toarray() - ref).max() > tol * (sc if sc > 0 else 1):
                 return {'what': 'as_matrix (sparse form) differs from dense', 'case': ('as_matrix', o, None)}
         elif k == 4:
             d = int(rng.integers(1, 4)); L = int(rng.integers(1, 4)); qd = mpsgen.rand_qd(rng, d); sc = float(rng.choice([1, 2.5, -1]))
